@@ -144,7 +144,9 @@ Proof. reflexivity. Qed.
 Lemma bridge_index_setdefault_returns_stored : index_setdefault_returns_stored = true.
 Proof. reflexivity. Qed.
 Lemma bridge_index_setdefault_add :
-  index_setdefault_add = {| qc_meth := CM_add; qc_side := Back; qc_default := DfComp CNone; qc_retry := true; qc_in_txn := false |}.
+  index_setdefault_add = {| qc_meth := CM_add; qc_side := Back; qc_default := DfComp CNone; qc_retry := true; qc_in_txn := true |}.
+Proof. reflexivity. Qed.
+Lemma bridge_index_setdefault_retry : index_setdefault_retry = true.
 Proof. reflexivity. Qed.
 Lemma bridge_index_peekitem_call :
   index_peekitem_call = {| qc_meth := CM_peekitem; qc_side := Back; qc_default := DfComp CNone; qc_retry := true; qc_in_txn := false |}.
